@@ -349,6 +349,93 @@ theorem route_sound (r : Rule) (pv : Int → Int) (x : Int) (env : Cond → Opti
 /-- A statement without WHERE goes to every sub table. -/
 theorem route_no_where (r : Rule) : routeStmt r none = some r.idxs := rfl
 
+/-! ### IN lists -/
+
+theorem allRanks_mem (ls : List Lit) (vs : List Int) (h : allRanks ls = some vs) (x : Int) :
+    x ∈ vs ↔ ∃ l ∈ ls, l.rank = some x := by
+  induction ls generalizing vs with
+  | nil => simp [allRanks] at h; subst h; simp
+  | cons l ls ih =>
+    simp only [allRanks] at h
+    cases hr : l.rank with
+    | none => simp [hr] at h
+    | some v =>
+      cases hq : allRanks ls with
+      | none => simp [hr, hq] at h
+      | some ws =>
+        simp [hr, hq] at h; subst h
+        simp only [List.mem_cons, ih ws hq]
+        constructor
+        · rintro (rfl | ⟨l', hl', hx⟩)
+          · exact ⟨l, Or.inl rfl, hr⟩
+          · exact ⟨l', Or.inr hl', hx⟩
+        · rintro ⟨l', hl' | hl', hx⟩
+          · subst hl'; rw [hr] at hx; cases hx; exact Or.inl rfl
+          · exact Or.inr ⟨l', hl', hx⟩
+
+theorem allPlaces_filter (ls : List Lit) (ps : List Int) (p : Lit → Bool) (h : allPlaces ls = some ps) :
+    ∃ qs, allPlaces (ls.filter p) = some qs := by
+  induction ls generalizing ps with
+  | nil => exact ⟨[], rfl⟩
+  | cons l ls ih =>
+    simp only [allPlaces] at h
+    cases h1 : l.place with
+    | none => simp [h1] at h
+    | some j =>
+      cases h2 : allPlaces ls with
+      | none => simp [h1, h2] at h
+      | some js =>
+        obtain ⟨qs, hqs⟩ := ih js h2
+        simp only [List.filter_cons]
+        split
+        · exact ⟨j :: qs, by simp only [allPlaces, h1, hqs]⟩
+        · exact ⟨qs, hqs⟩
+
+theorem allPlaces_mem (ls : List Lit) (ps : List Int) (h : allPlaces ls = some ps) (l : Lit) (hl : l ∈ ls) :
+    ∃ j, l.place = some j := by
+  induction ls generalizing ps with
+  | nil => simp at hl
+  | cons a as ih =>
+    simp only [allPlaces] at h
+    cases h1 : a.place with
+    | none => simp [h1] at h
+    | some j =>
+      cases h2 : allPlaces as with
+      | none => simp [h1, h2] at h
+      | some js =>
+        simp at hl
+        rcases hl with rfl | hl
+        · exact ⟨j, h1⟩
+        · exact ih js h2 hl
+
+/-- **C01 (IN lists are split soundly).** For `k IN (v₁ … vₙ)` on the sharding
+    column the statement sent to table `i` lists only the values placed in `i`.
+    On every row stored in table `i` this narrower predicate has the same truth
+    value as the original one: a listed value equal to the row's key is placed
+    where the row lives. (An empty per-table list is written `1=0`: FALSE, as
+    the original is on such rows.) -/
+theorem in_rewrite_sound (r : Rule) (pv : Int → Int) (ls : List Lit) (ps : List Int)
+    (hl : LitsOK r pv ls) (hp : allPlaces ls = some ps) (x i : Int) (hx : pv x = i) :
+    ∃ vs ws, allRanks ls = some vs ∧ allRanks (inValuesFor ls i) = some ws ∧
+      (vs.contains x = ws.contains x) := by
+  obtain ⟨vs, hvs, _⟩ := allPlaces_ranks r pv ls ps hl hp
+  have hsub : ∀ l ∈ inValuesFor ls i, l ∈ ls := fun l h => (List.mem_filter.mp h).1
+  obtain ⟨qs, hqs⟩ := allPlaces_filter ls ps (fun l => l.place == some i) hp
+  obtain ⟨ws, hws, _⟩ := allPlaces_ranks r pv (inValuesFor ls i) qs (hl.sub hsub) hqs
+  refine ⟨vs, ws, hvs, hws, ?_⟩
+  rw [Bool.eq_iff_iff]
+  simp only [List.contains_iff_mem, allRanks_mem ls vs hvs, allRanks_mem _ ws hws]
+  constructor
+  · rintro ⟨l, hl', hr⟩
+    refine ⟨l, ?_, hr⟩
+    simp only [inValuesFor, List.mem_filter, hl', true_and]
+    obtain ⟨j, hpl⟩ := allPlaces_mem ls ps hp l hl'
+    obtain ⟨v, hv, hpv⟩ := hl.place_den l hl' j hpl
+    rw [hr] at hv; cases hv
+    simp [hpl, ← hpv, hx]
+  · rintro ⟨l, hl', hr⟩
+    exact ⟨l, hsub l hl', hr⟩
+
 /-! ### Instances discharging the well-formedness hypotheses -/
 
 /-- What `NumRangeShard` (built by `ParseNumSharding`: table `i` holds
